@@ -27,13 +27,13 @@ EXTRA = [
 
 
 def pipeline(rng, quick):
-    return corr_pipeline.run(rng, 30 if quick else 1500, corpus_limit=30 if quick else None)
+    return corr_pipeline.run(rng, 30 if quick else 600, corpus_limit=30 if quick else 300)
 
 
 def run(ctx) -> int:
     default = semcheck.flags_only(*[t for t in semcheck.ALL_TRAITS if t != "duplication"])
     allf = semcheck.flags_only(*semcheck.ALL_TRAITS)
-    rnd = [{t: ctx.rng.random() < 0.5 for t in semcheck.ALL_TRAITS} for _ in range(2 if ctx.quick() else 12)]
+    rnd = [{t: ctx.rng.random() < 0.5 for t in semcheck.ALL_TRAITS} for _ in range(2 if ctx.quick() else 6)]
     return _generic.run_semantic(ctx, MODULE, LEVEL, RULE, [default, allf] + rnd, "out", None, EXTRA, (50, 400), (40, 1500), corr=[('pipeline stages', pipeline)],
                                  n_inst=4, generators=list(tgen.GENERATORS.values()), outp_choices=("auto",), one_to_one=False,
                                  assumptions=("C01 composes the per-pass properties; where those are partial, so is C01",
